@@ -16,7 +16,7 @@ import (
 func init() {
 	Register(&Property{
 		ID: "C04",
-		Explanation: "Decides column-level agreement between what is written and what is read/matched, and that handlers write only validated tuples: (R04.1) the internal field written to a column by FromInternal/insertSubject is the field ToInternal reads from it, and the two subject kinds set/clear complementary columns; (R04.2) the INSERT's column list, the db tags of the values bound and the placeholders per row agree position by position; (R04.3) every predicate 'col = ?' (pop fragments, the DELETE builder, the traversal SELECT and its fragment function) is bound to the internal field that R04.1 maps to col, a subject id matches exactly {subject_id} and a subject set exactly the three subject_set_* columns, extra conjuncts are only IS NULL on the complementary columns; (R04.4) in whereQuery every Where is guarded by the non-nil test of the query field it binds and every query field has one; (R04.5) the DELETE is one conjunction per tuple over namespace, object, relation and subject, OR-ed across tuples, AND the network id; (R04.6) every write handler passes to the storage manager only what Mapper().FromTuple returned, and FromTuple appends a tuple only after an error-checked namespace lookup (also of the subject set's namespace) and Validate; (R04.12) a REST write entry that reads the URL query also parses it strictly, so a malformed pair is rejected instead of silently widening the selection; (R04.11) in the transact/patch handlers a delta's tuple is collected only under a test of that delta's action (never positionally); (R04.10) every internal consumer of the paginated listing either hands the page token on or loops until it is empty, so nothing that means 'all matching relationships' acts on the first page only; (R04.9) a multi-tuple write or delete iterates its input whole or in tiles that cover it, so every input tuple reaches a statement; (R04.7) persistence/sql keeps no process-local mutable state (caches) besides the network id set at start-up, so what a statement sees is the database. " +
+		Explanation: "Decides column-level agreement between what is written and what is read/matched, and that handlers write only validated tuples: (R04.1) the internal field written to a column by FromInternal/insertSubject is the field ToInternal reads from it, and the two subject kinds set/clear complementary columns; (R04.2) the INSERT's column list, the db tags of the values bound and the placeholders per row agree position by position; (R04.3) every predicate 'col = ?' (pop fragments, the DELETE builder, the traversal SELECT and its fragment function) is bound to the internal field that R04.1 maps to col, a subject id matches exactly {subject_id} and a subject set exactly the three subject_set_* columns, extra conjuncts are only IS NULL on the complementary columns; (R04.4) in whereQuery every Where is guarded by the non-nil test of the query field it binds and every query field has one; (R04.5) the DELETE is one conjunction per tuple over namespace, object, relation and subject, OR-ed across tuples, AND the network id; (R04.6) every write handler passes to the storage manager only what Mapper().FromTuple returned, and FromTuple appends a tuple only after an error-checked namespace lookup (also of the subject set's namespace) and Validate; (R04.14) every stored id is NewV5(network, name) of the string handed in and nothing else, and the strings are stored as handed in; (R04.13) the query mappers copy a field under presence tests only; (R04.12) a REST write entry that reads the URL query also parses it strictly, so a malformed pair is rejected instead of silently widening the selection; (R04.11) in the transact/patch handlers a delta's tuple is collected only under a test of that delta's action (never positionally); (R04.10) every internal consumer of the paginated listing either hands the page token on or loops until it is empty, so nothing that means 'all matching relationships' acts on the first page only; (R04.9) a multi-tuple write or delete iterates its input whole or in tiles that cover it, so every input tuple reaches a statement; (R04.7) persistence/sql keeps no process-local mutable state (caches) besides the network id set at start-up, so what a statement sees is the database. " +
 			"Not decided: database or pop semantics, read-your-writes across connections, the multiset behaviour over histories.",
 		Assumptions: []string{
 			"the table's CHECK constraint makes the IS NULL conjuncts on complementary subject columns always true for stored rows",
@@ -427,6 +427,9 @@ func runC04(c *Ctx) {
 	c.R.SubRun(func() { r075(c, "R07.5") }, map[string]string{"R07.5": "R04.10"})
 	r0411(c)
 	r0412(c, "R04.12")
+	mapperQueryGuards(c, "R04.13")
+	// R04.14 the name <-> id mapping under the store is exact (the C16 forward-mapping rules)
+	c.R.SubRun(func() { runC16(c) }, map[string]string{"R16.3": "R04.14", "R16.8": "R04.14"})
 }
 
 // ---- R04.6 handlers write only mapper-validated tuples ------------------------------------------
